@@ -259,6 +259,13 @@ fn has_nonatomic_skip_rule(g: &Grammar) -> bool {
         .any(|i| g.rules[i].kind == Kind::NonAtomic)
 }
 
+/// The entry rule is WHITESPACE / COMMENT itself, declared normal or silent: called directly it gets the
+/// entry point's non-atomic context (known finding: only the implicit skip and references force atomicity).
+fn entry_is_inherited_skip_rule(g: &Grammar, ri: usize) -> bool {
+    g.rules[ri].is_skip_rule && matches!(g.rules[ri].kind, Kind::Normal | Kind::Silent)
+}
+const SKIP_ENTRY_SIG: &str = "skip-rule-used-as-entry-point-not-matched-atomically";
+
 fn pruned(g: &Grammar, toks: &[Tok]) -> Vec<Tok> {
     let mut v = toks.to_vec();
     m::prune(g, &mut v);
@@ -388,7 +395,9 @@ fn c01_c02(ctx: &Ctx, gi: usize, ri: usize, rep: &mut Report, note: &dyn Fn(&str
             }
             rep.outcome(format!("{}:{}", b.exp_ok, b.exp_end));
             if pp.ok != b.exp_ok || (pp.ok && pp.end != b.exp_end) {
-                let sig = if has_nonatomic_skip_rule(g) {
+                let sig = if entry_is_inherited_skip_rule(g, ri) {
+                    SKIP_ENTRY_SIG
+                } else if has_nonatomic_skip_rule(g) {
                     "recognition-with-nonatomic-skip-rule"
                 } else {
                     "recognition-mismatch"
@@ -407,7 +416,9 @@ fn c01_c02(ctx: &Ctx, gi: usize, ri: usize, rep: &mut Report, note: &dyn Fn(&str
             }
             rep.outcome(show_toks(g, &exp));
             if exp != pp.toks {
-                let sig = if !reach.is_empty() && strip_rules(&exp, &reach) == strip_rules(&pp.toks, &reach) {
+                let sig = if entry_is_inherited_skip_rule(g, ri) {
+                    SKIP_ENTRY_SIG
+                } else if !reach.is_empty() && strip_rules(&exp, &reach) == strip_rules(&pp.toks, &reach) {
                     "tokens-of-rules-inside-skip-rule-body"
                 } else if has_nonatomic_skip_rule(g) {
                     "tree-with-nonatomic-skip-rule"
@@ -550,103 +561,132 @@ fn c04(ctx: &Ctx, gi: usize, ri: usize, rep: &mut Report, note: &dyn Fn(&str)) {
     let e = &ctx.entries[gi];
     let g = &ctx.grammars[gi];
     let inputs = inputs_for(ctx, e, 0);
+    let max = ctx.len_for(e);
     for input in &inputs {
-        let case = Case {
-            ctx,
-            gi,
-            ri,
-            input,
-            form: Form::Str,
-            a: 0,
-            b: input.len(),
-            init: &[],
-        };
-        note(&case.id());
-        let b = base::base(g, e, ri, input, &[], Atom::NonAtomic, rep);
-        if b.ill_founded {
-            rep.ill_founded += 1;
-            continue;
-        }
-        rep.cases += 1;
-        let o = match typed(e, ri, &case.req(what::PP | what::PF | what::CF | what::EQH | what::TP)) {
-            Ok(o) => o,
-            Err(p) => {
-                rep.violation(case.violation("typed-panic", "no panic".into(), format!("panic: {}", p), String::new()));
+        let sub_ok = input.len() + 2 <= max || ctx.opts.only_input.is_some();
+        for (form, a, hi) in forms_of(e, input, sub_ok) {
+            let case = Case {
+                ctx,
+                gi,
+                ri,
+                input,
+                form,
+                a,
+                b: hi,
+                init: &[],
+            };
+            note(&case.id());
+            // the oracle for a sub-input is the reference machine on the slice (C08 ties both together)
+            let slice = &input[a..hi];
+            let b = if form == Form::Str {
+                base::base(g, e, ri, input, &[], Atom::NonAtomic, rep)
+            } else {
+                let r = m::run(g, ri, slice, "", &[], true, Atom::NonAtomic);
+                rep.states += r.stats.states;
+                rep.transitions += r.stats.transitions;
+                let ill = r.diverged || r.nonprogress;
+                Base {
+                    m_toks: base::m_toks_of(&r),
+                    exp_ok: r.ok.is_some(),
+                    exp_end: r.ok.as_ref().map(|x| x.0).unwrap_or(0),
+                    exp_toks: vec![],
+                    m: r,
+                    pm: refpeg::mpest::POutcome::Diverge,
+                    pm_stack: vec![],
+                    pest: None,
+                    defined: false,
+                    ill_founded: ill,
+                }
+            };
+            if b.ill_founded {
+                rep.ill_founded += 1;
                 continue;
             }
-        };
-        rep.impl_validated += 1;
-        let (pp, pf, cf) = (o.pp.as_ref().unwrap(), o.pf.as_ref().unwrap(), o.cf.as_ref().unwrap());
-        let m_ok = b.m.ok.is_some();
-        let m_end = b.m.ok.as_ref().map(|x| x.0).unwrap_or(0);
-        if pp.ok != m_ok || (m_ok && pp.end != m_end) {
-            // prefix recognition differs from the model: C01's business, the trailing-skip oracle does not apply
-            rep.cell("skipped-prefix-differs-from-model");
-            continue;
-        }
-        let full = b.m.full_ok.unwrap_or(false);
-        if m_ok && m_end < input.len() {
-            rep.nontrivial += 1;
-        }
-        rep.outcome(format!("{}:{}:{}", m_ok, m_end as isize, full));
-        if m_ok && m_end < input.len() {
-            if full {
-                rep.cell("accepted-after-trailing-skip");
-            } else {
-                rep.cell("rejected-unread-input");
+            rep.cases += 1;
+            let w = what::PP | what::PF | what::CF | if form == Form::Str { what::EQH | what::TP } else { 0 };
+            let o = match typed(e, ri, &case.req(w)) {
+                Ok(o) => o,
+                Err(p) => {
+                    rep.violation(case.violation("typed-panic", "no panic".into(), format!("panic: {}", p), String::new()));
+                    continue;
+                }
+            };
+            rep.impl_validated += 1;
+            let (pp, pf, cf) = (o.pp.as_ref().unwrap(), o.pf.as_ref().unwrap(), o.cf.as_ref().unwrap());
+            let m_ok = b.m.ok.is_some();
+            let m_end = b.m.ok.as_ref().map(|x| x.0).unwrap_or(0);
+            if pp.ok != m_ok || (m_ok && pp.end != m_end + a) {
+                // prefix recognition differs from the model: C01's / C08's business, the trailing-skip oracle does not apply
+                rep.cell("skipped-prefix-differs-from-model");
+                continue;
             }
-        }
-        let sig_suffix = if has_nonatomic_skip_rule(g) { "-with-nonatomic-skip-rule" } else { "" };
-        if pf.ok != full {
-            rep.violation(case.violation(
-                &format!("try_parse-verdict{}", sig_suffix),
-                format!("full={} (prefix end {:?}, EOI tested at {:?})", full, m_end, b.m.full_eoi_pos),
-                format!("try_parse ok={}", pf.ok),
-                String::new(),
-            ));
-        }
-        if cf.ok != full {
-            rep.violation(case.violation(
-                &format!("try_check-verdict{}", sig_suffix),
-                format!("full={}", full),
-                format!("try_check ok={}", cf.ok),
-                String::new(),
-            ));
-        }
-        if let Some((tp, tc, same)) = o.tp {
-            if tp != full || tc != full || !same {
+            let full = b.m.full_ok.unwrap_or(false);
+            if m_ok && m_end < slice.len() {
+                rep.nontrivial += 1;
+            }
+            rep.outcome(format!("{}:{}:{}", m_ok, m_end as isize, full));
+            if m_ok && m_end < slice.len() {
+                if full {
+                    rep.cell("accepted-after-trailing-skip");
+                } else {
+                    rep.cell("rejected-unread-input");
+                }
+            }
+            if form != Form::Str {
+                rep.cell("sub-input-form");
+            }
+            let sig_suffix = if has_nonatomic_skip_rule(g) { "-with-nonatomic-skip-rule" } else { "" };
+            if pf.ok != full {
                 rep.violation(case.violation(
-                    &format!("typed-parser-convenience-methods{}", sig_suffix),
-                    format!("full={}", full),
-                    format!("TypedParser::try_parse ok={} try_check ok={} same tree as T::try_parse: {}", tp, tc, same),
+                    &format!("try_parse-verdict{}", sig_suffix),
+                    format!("full={} (prefix end {:?}, EOI tested at {:?}, offsets relative to the sub-input)", full, m_end, b.m.full_eoi_pos),
+                    format!("try_parse ok={}", pf.ok),
                     String::new(),
                 ));
             }
-            rep.cell("TypedParser-methods-compared");
-        }
-        if pf.ok && pf.toks != pp.toks {
-            rep.violation(case.violation(
-                "full-tree-differs-from-prefix-tree",
-                show_toks(g, &pp.toks),
-                show_toks(g, &pf.toks),
-                String::new(),
-            ));
-        }
-        if let Some(q) = &o.eqh {
-            if q.full_eq_partial == Some(false) {
+            if cf.ok != full {
+                rep.violation(case.violation(
+                    &format!("try_check-verdict{}", sig_suffix),
+                    format!("full={}", full),
+                    format!("try_check ok={}", cf.ok),
+                    String::new(),
+                ));
+            }
+            if let Some((tp, tc, same)) = o.tp {
+                if tp != full || tc != full || !same {
+                    rep.violation(case.violation(
+                        &format!("typed-parser-convenience-methods{}", sig_suffix),
+                        format!("full={}", full),
+                        format!("TypedParser::try_parse ok={} try_check ok={} same tree as T::try_parse: {}", tp, tc, same),
+                        String::new(),
+                    ));
+                }
+                rep.cell("TypedParser-methods-compared");
+            }
+            if pf.ok && pf.toks != pp.toks {
                 rep.violation(case.violation(
                     "full-tree-differs-from-prefix-tree",
-                    "try_parse tree == try_parse_partial tree".into(),
-                    "not equal (==, Debug or hash)".into(),
+                    show_toks(g, &pp.toks),
+                    show_toks(g, &pf.toks),
                     String::new(),
                 ));
             }
-        }
-        if rep.samples.len() < 3 && m_ok && m_end < input.len() && full {
-            rep.sample(case.sample(
-                &format!("prefix end {} of {}, try_parse ok={}", m_end, input.len(), pf.ok),
-                J::s("trailing text is skippable"),
-            ));
+            if let Some(q) = &o.eqh {
+                if q.full_eq_partial == Some(false) {
+                    rep.violation(case.violation(
+                        "full-tree-differs-from-prefix-tree",
+                        "try_parse tree == try_parse_partial tree".into(),
+                        "not equal (==, Debug or hash)".into(),
+                        String::new(),
+                    ));
+                }
+            }
+            if rep.samples.len() < 3 && m_ok && m_end < slice.len() && full {
+                rep.sample(case.sample(
+                    &format!("prefix end {} of {}, try_parse ok={}", m_end, slice.len(), pf.ok),
+                    J::s("trailing text is skippable"),
+                ));
+            }
         }
     }
 }
@@ -812,12 +852,20 @@ fn c07(ctx: &Ctx, gi: usize, ri: usize, rep: &mut Report, note: &dyn Fn(&str)) {
         rep.outcome(format!("{}:{}:{}", b.exp_ok, b.exp_end, show_toks(g, &pruned(g, &b.exp_toks))));
         let nonatomic_skip = has_nonatomic_skip_rule(g);
         if pp.ok != b.exp_ok || (pp.ok && pp.end != b.exp_end) {
-            let sig = if nonatomic_skip { "skip-rule-declared-nonatomic-not-matched-atomically" } else { "offset-mismatch" };
+            let sig = if entry_is_inherited_skip_rule(g, ri) {
+                SKIP_ENTRY_SIG
+            } else if nonatomic_skip {
+                "skip-rule-declared-nonatomic-not-matched-atomically"
+            } else {
+                "offset-mismatch"
+            };
             rep.violation(case.violation(sig, exp_str(&b), call_str(&o.pp), String::new()));
         } else if pp.ok {
             let exp = pruned(g, &b.exp_toks);
             if exp != pp.toks {
-                let sig = if !reach.is_empty() && strip_rules(&exp, &reach) == strip_rules(&pp.toks, &reach) {
+                let sig = if entry_is_inherited_skip_rule(g, ri) {
+                    SKIP_ENTRY_SIG
+                } else if !reach.is_empty() && strip_rules(&exp, &reach) == strip_rules(&pp.toks, &reach) {
                     "tokens-of-rules-inside-skip-rule-body"
                 } else if nonatomic_skip {
                     "skip-rule-declared-nonatomic-not-matched-atomically"
